@@ -198,11 +198,12 @@ PROPS = {
              "topic | failing Save, releaseAcks(1..6), break, appStep, restart at a drawn stop point (<= 2)}; two thirds of the "
              "cases start at identifiers 0x3ffd-0x3fff. TestC17Slots: 3..530 requests with answers withheld, every k-th "
              "abandoned, optional 8200 answered requests in between (counter wrap), answers for a drawn prefix of a "
-             "forward/reverse/interleaved order, then connection loss. Non-trivial: the limit was reached, the identifier "
+             "forward/reverse/interleaved order, then connection loss. TestC17LimitBoundary: a limit from {16382,16383,16384,16385,8191,8193,-1} for one level, "
+             "filled to the brim by an offline client (optionally from a session at the identifier wrap): exactly normMax(limit) acceptances, then ErrMax three times. Non-trivial: the limit was reached, the identifier "
              "wrapped, a restart had pending transfers, or requests were abandoned / beyond the slot limit.",
         assumptions=ASSUME_SIM,
-        quick=dict(engines=[rapid('^TestC17Identifiers', 1600, steps=50), rapid('^TestC17Slots', 64, shards=8)]),
-        thorough=dict(engines=[rapid('^TestC17Identifiers', 40000, shards=14, steps=80, timeout=1500), rapid('^TestC17Slots', 600, shards=14, timeout=1500)]),
+        quick=dict(engines=[rapid('^TestC17Identifiers', 1600, steps=50), rapid('^TestC17Slots', 64, shards=8), rapid('^TestC17LimitBoundary', 16, shards=4)]),
+        thorough=dict(engines=[rapid('^TestC17Identifiers', 40000, shards=14, steps=80, timeout=1500), rapid('^TestC17Slots', 600, shards=14, timeout=1500), rapid('^TestC17LimitBoundary', 400, shards=8, timeout=1500)]),
     ),
     'C02': dict(
         claimed=True,
